@@ -178,8 +178,11 @@ Definition attractors_b (N : net) : list (list state) :=
 
 (* attractors of a node: inside the space, not inside any avoided space *)
 Definition inside_b (A : list state) (S : space) : bool := forallb (fun s => in_space s S) A.
+Definition node_attractors_of (attrs : list (list state)) (S : space) (avoid : list space)
+  : list (list state) :=
+  filter (fun A => inside_b A S && negb (existsb (inside_b A) avoid)) attrs.
 Definition node_attractors_b (N : net) (S : space) (avoid : list space) : list (list state) :=
-  filter (fun A => inside_b A S && negb (existsb (inside_b A) avoid)) (attractors_b N).
+  node_attractors_of (attractors_b N) S avoid.
 
 (* ---------- reduced STG fixed points ---------- *)
 (* retained set R: Some b for retained variables.  A state is a fixed point of
